@@ -608,7 +608,11 @@ impl Renderer {
         match p {
             Pat::Id(n, h) => with_hint(n.to_string(), h),
             Pat::Wild(n, h) => with_hint(format!("_{}", n.as_deref().unwrap_or("")), h),
-            Pat::Lit(e) => self.expr(e, PREC_UNARY, level),
+            Pat::Lit(e) => match &**e {
+                E::Int(i) if *i < 0 && *i != i64::MIN => format!("{i}"),
+                E::Float(f) if *f < 0.0 => float_literal(*f),
+                _ => self.expr(e, PREC_UNARY, level),
+            },
             Pat::Tuple(ps, h) => {
                 let inner: Vec<String> = ps.iter().map(|p| self.pat(p, level, in_match)).collect();
                 let mut t = format!("({})", inner.join(", "));
